@@ -4,6 +4,8 @@ import (
 	"bytes"
 	"encoding/binary"
 	"encoding/gob"
+	"errors"
+	"fmt"
 	"sort"
 	"sync"
 
@@ -31,6 +33,10 @@ func OpenIndexFromBoltDatabase(db *bbolt.DB, opts ...IndexOption) (*Index, error
 
 	err := db.View(func(tx *bbolt.Tx) error {
 		bucket := tx.Bucket([]byte("data"))
+		if bucket == nil {
+			return errors.New("not an updog index: no data bucket")
+		}
+
 		schemaItem := bucket.Get(keySchema)
 
 		var sch schema
@@ -42,6 +48,9 @@ func OpenIndexFromBoltDatabase(db *bbolt.DB, opts ...IndexOption) (*Index, error
 		idx.schema = &sch
 
 		rowsItem := bucket.Get(keyNextRowID)
+		if len(rowsItem) != 4 {
+			return fmt.Errorf("not an updog index: row counter has length %d, expected 4", len(rowsItem))
+		}
 
 		idx.nextRowID = binary.BigEndian.Uint32(rowsItem)
 		return nil
